@@ -935,8 +935,9 @@ func worldC19(w *World) {
 	}
 	w.Sample = map[string]interface{}{"clients": desc, "faults": fdesc, "evict_pct": evictPct}
 	w.OnCheck(func() {
-		// every handler call returns within its deadline (30 s waits + RPC latency + slack)
-		limit := 31*time.Second + 200*rpcLat
+		// every handler call returns in bounded time: generously above the proxy's own
+		// waiting periods (whose exact length is not part of the statement)
+		limit := 2*time.Minute + 200*rpcLat
 		for kind, d := range maxTook {
 			if d > limit {
 				w.Violation("deadline", "a handler call took longer than its deadline | %s call took %v", kind, d)
